@@ -227,3 +227,90 @@ Example C19_mpe_forty_successive :
   forallb (fun o => match o with Wire (NoteOn 1 _ _) | Wire (NoteOff 1 _ _) => true | _ => false end)
           (mpe_run mpe_init (flat_map (fun n => [On n 100; Off n]) (zrange 20 40))) = true.
 Proof. vm_compute. reflexivity. Qed.
+
+(** ======================= MIDI file: delta-timed messages ======================= *)
+(* (added for the seeded changes C19-c / C19-d: time between two messages, histories on one device) *)
+From Isobar Require Import IO.FileWire IO.FileWireProofs.
+From Coq Require Import Qround.
+
+(* For EVERY sequence of tick() runs and requests on a MidiFileOutputDevice (requests the device
+   writes, requests mido rejects, requests the device inherits as no-ops), the absolute tick of
+   every message in the saved file — the running sum of the written delta times — is exactly the
+   number of tick() calls that preceded the request, however long the gaps are; the closing
+   dummy note_off sits at the end of the run. *)
+Theorem C19_file_absolute_ticks : forall ops, absolute 0 (file_written ops) = timed 0 ops.
+Proof. exact file_absolute_ticks. Qed.
+Print Assumptions C19_file_absolute_ticks.
+
+(* the message that follows a gap of g ticks after the previous written message carries delta g *)
+Theorem C19_file_gap_exact : forall pre m1 g m2 post,
+  msg_valid m1 = true -> msg_valid m2 = true ->
+  nth_error (file_written (pre ++ FReq m1 :: FTicks g :: FReq m2 :: post)) (S (nwritten pre)) = Some (g, m2).
+Proof. exact file_gap_exact. Qed.
+Print Assumptions C19_file_gap_exact.
+
+Theorem C19_file_deltas_nonneg : forall ops, ticks_ok ops = true ->
+  Forall (fun dm => 0 <= fst dm) (file_written ops).
+Proof. exact file_deltas_nonneg. Qed.
+Print Assumptions C19_file_deltas_nonneg.
+
+(* [FTicks n] is n single tick() calls *)
+Theorem C19_file_ticks_run_length : forall n d, 0 <= n ->
+  f_run (repeat (FTicks 1) (Z.to_nat n)) d = f_step d (FTicks n).
+Proof. exact ticks_run_length. Qed.
+Print Assumptions C19_file_ticks_run_length.
+
+(* the beat arithmetic of the device is exact at every resolution: with time = a/tpb and
+   last_event_time = b/tpb, int(round((time - last_event_time) * tpb)) (round-half-even) is a - b;
+   and tick() keeps time = ticks/tpb *)
+Theorem C19_file_round_exact : forall (tpb : positive) (a b : Z),
+  round_half_even ((beats a tpb - beats b tpb) * inject_Z (Zpos tpb))%Q = a - b.
+Proof. exact round_beats_exact. Qed.
+Print Assumptions C19_file_round_exact.
+
+Theorem C19_file_tick_beats : forall tpb n, (beats n tpb + 1 / inject_Z (Zpos tpb) == beats (n + 1) tpb)%Q.
+Proof. exact tick_beats. Qed.
+Print Assumptions C19_file_tick_beats.
+
+Example C19_file_nonvacuous :
+  let ops := [FReq (NoteOn 9 48 100); FTicks 4800; FReq (NoteOff 9 48 64); FSilent; FTicks 1;
+              FReq (NoteOn 16 1 1); FTicks 9599; FReq (NoteOn 1 74 90); FReq (NoteOn 1 77 90); FTicks 96000] in
+  ticks_ok ops = true
+  /\ file_written ops = [(0, NoteOn 9 48 100); (4800, NoteOff 9 48 64); (9600, NoteOn 1 74 90);
+                         (0, NoteOn 1 77 90); (96000, closing)]
+  /\ map fst (timed 0 ops) = [0; 4800; 14400; 14400; 110400].
+Proof. vm_compute. repeat split. Qed.
+
+(** ======================= histories on one device ======================= *)
+
+(* the k-th datagram of ANY history of OSC requests decodes to the k-th request: nothing of an
+   earlier request leaks into a later datagram *)
+Theorem C19_osc_history : forall reqs, forallb osc_ok reqs = true ->
+  map osc_decode (osc_history reqs) = map Some reqs.
+Proof. exact osc_history_decodes. Qed.
+Print Assumptions C19_osc_history.
+
+(* the TYPE of an argument is carried: two requests to the same address that differ only in the
+   type of one argument (int 2 / float 2.0 / string "2" — equal under Python's ==) never share a
+   datagram *)
+Theorem C19_osc_type_carried : forall addr pre post a b,
+  nonzero_bytes addr = true -> forallb arg_ok (pre ++ a :: post) = true ->
+  forallb arg_ok (pre ++ b :: post) = true -> same_kind a b = false ->
+  osc_encode addr (pre ++ a :: post) <> osc_encode addr (pre ++ b :: post).
+Proof. exact osc_type_carried. Qed.
+Print Assumptions C19_osc_type_carried.
+
+Theorem C19_port_history : forall reqs, forallb msg_valid reqs = true ->
+  map (fun o => match o with Some bs => midi_decode bs | None => None end) (port_history reqs) = map Some reqs.
+Proof. exact port_history_decodes. Qed.
+Print Assumptions C19_port_history.
+
+Example C19_osc_history_nonvacuous :
+  let a := [47; 102] in
+  let h := [(a, [OInt 2; OStr [99]; OInt 880]); (a, [OInt 2; OStr [99]; OFloat 68 92 0 0]);
+            (a, [OStr [50]; OStr [99]; OInt 880]); (a, [OInt 2; OStr [99]; OInt 880])] in
+  forallb osc_ok h = true
+  /\ map osc_decode (osc_history h) = map Some h
+  /\ nth 0 (osc_history h) [] <> nth 1 (osc_history h) []
+  /\ nth 0 (osc_history h) [] = nth 3 (osc_history h) [].
+Proof. vm_compute. repeat split. discriminate. Qed.
